@@ -90,7 +90,17 @@ class MessageExtractor:
                 if node.escapes.strip():
                     # scan the arguments of filters too; the parentheses
                     # keep a multi-line expression tokenizable
-                    code = "(" + code + "|" + node.escapes + ")"
+                    # and the line breaks between the "|" and the first
+                    # filter, which the node does not keep, are put back
+                    gap = 0
+                    if node.escapes_lineno is not None:
+                        gap = max(
+                            node.escapes_lineno
+                            - node.lineno
+                            - code.count("\n"),
+                            0,
+                        )
+                    code = "(" + code + "|" + "\n" * gap + node.escapes + ")"
             else:
                 continue
 
